@@ -561,9 +561,11 @@ static Token *paste(Token *lhs, Token *rhs) {
   // Paste the two tokens.
   char *buf = format("%.*s%.*s", lhs->len, lhs->loc, rhs->len, rhs->loc);
 
-  // Tokenize the resulting string.
-  Token *tok = tokenize(new_file(lhs->file->name, lhs->file->file_no, buf));
-  if (tok->next->kind != TK_EOF)
+  // Tokenize the resulting string. Like a source file it ends with a
+  // newline, which is where a line comment stops.
+  Token *tok = tokenize(new_file(lhs->file->name, lhs->file->file_no, format("%s\n", buf)));
+  // '/' ## '/' starts a comment: the result is no token at all.
+  if (tok->kind == TK_EOF || tok->next->kind != TK_EOF)
     error_tok(lhs, "pasting forms '%s', an invalid token", buf);
   return tok;
 }
